@@ -86,6 +86,11 @@ func genComputeCases(r *Rng, tier string, forC02 bool) []*Case {
 		n := 1 + r.Intn(10)
 		if tier != "quick" && r.Chance(20) {
 			n = 10 + r.Intn(30)
+			if !forC02 {
+				// C01's per-case rational certificate (exact fixed point, checked by the kernel) grows
+				// quickly with the dimension: 18 peers keep a shard in minutes
+				n = 10 + r.Intn(9)
+			}
 		}
 		c, p, kind := randGraph(r, n)
 		cc, pc, err := canonInputs(c, p)
